@@ -34,7 +34,7 @@ iter_uris(base) does not panic, every URI re-parses, equals base-directory + nam
 base.is_parent_of(uri); ManifestHash::verify(data) is Ok iff the listed hash equals SHA-256(data) (aws-lc-rs). \
 name-enum: complete enumeration of all names of length 0..=5 over the alphabet {a Z 7 - _ . / space NUL} as only entry and \
 as second entry after a valid one. non-trivial = manifest with >= 2 entries of which >= 1 is hostile (names), each \
-enumerated name (name-enum). Content entry point: the eContent is also decoded through ManifestContent::take_from in DER mode and in BER mode, and in BER dress (every name / hash / entry with a long-form length; entries of indefinite length) in BER mode; whatever any of these lets through is checked like a decoded manifest (names, order of the times, len() = entries iterated, URIs, hashes); iterator laws on iter() and iter_uris() (complete for lists up to 24 entries, count / skip / size_hint after advancing for all).";
+enumerated name (name-enum). Content entry point: the eContent is also decoded through ManifestContent::take_from in DER mode and in BER mode, and in BER dress (every name / hash / entry with a long-form length; entries of indefinite length) in BER mode; whatever any of these lets through is checked like a decoded manifest (names, order of the times, len() = entries iterated, URIs, hashes); iterator laws on iter() and iter_uris() (complete for lists up to 24 entries, count / skip / size_hint after advancing for all). name-octets: every octet value at nine kinds of position of a file name (complete). many-entries: 255 .. 131075 entries through ManifestContent::take_from and Manifest::decode (len() = entries iterated; refusal allowed beyond 4096). Hash kinds include the real hash with two octets changed by the same mask / exchanged / one bit flipped.";
 
 pub const SIG_F13: &str = "mft-name-empty-base";
 
